@@ -84,6 +84,24 @@ def judge(chk, sc, step):
             if tk[1] == "ok":
                 # model-independent recheck of availability from the dumped environment and module list
                 runnable.append((b, tk[2]))
+        for b in blds:
+            have_vars = {kv[0] for kv in b["global_flat"]} | {"out"}
+            have_mods = {x["name"] for x in b["modules"]}
+            for x in b["tasks"]:
+                if x[0] != t:
+                    continue
+                if x[1] == "ok":
+                    mv = [v for v in (x[2].get("required_vars") or []) if v not in have_vars]
+                    mm = [mo for mo in (x[2].get("required_modules") or []) if mo not in have_mods]
+                    if mv or mm:
+                        chk.fail_oracle("task:runnable-without-requirements", f"task {t} of {b['builder']}/{b['app']} is offered although required {mv + mm} are missing",
+                                        {"scenario": sc})
+                else:
+                    what = x[2]
+                    if what.startswith("required variable `") and what.split("`")[1] in have_vars:
+                        chk.fail_oracle("task:refused-although-var-set", f"{b['builder']}/{b['app']}: {what}", {"scenario": sc})
+                    if what.startswith("required module `") and what.split("`")[1] in have_mods:
+                        chk.fail_oracle("task:refused-although-module-selected", f"{b['builder']}/{b['app']}: {what}", {"scenario": sc})
         avail = {len(defining), len(runnable)}
         if len(set(json.dumps(x[2], sort_keys=True) if x[1] == "ok" else x[2] for b in defining for x in b["tasks"] if x[0] == t)) >= 2:
             nt = True
